@@ -215,9 +215,13 @@ var cacheDocs = []string{
 	`<mjml><mj-body><mj-section><mj-column><mj-text>Doc B</mj-text></mj-column></mj-section></mj-body></mjml>`, // differs from A in one byte
 	`<mjml><mj-body><mj-section><mj-column><mj-text>unclosed</mj-column></mj-section></mj-body></mjml>`,      // unparsable
 	`<mjml><mj-body><mj-section><mj-column><mj-text bogus-attr="1">Doc V</mj-text></mj-column></mj-section></mj-body></mjml>`, // validation error, HTML still returned
+	// the same document as the previous one behind two blank lines: same HTML, but the validation error names another line
+	"\n\n" + `<mjml><mj-body><mj-section><mj-column><mj-text bogus-attr="1">Doc V</mj-text></mj-column></mj-section></mj-body></mjml>`,
+	// document A followed by trailing whitespace: differs from A only after the root element
+	`<mjml><mj-body><mj-section><mj-column><mj-text>Doc A</mj-text></mj-column></mj-section></mj-body></mjml>` + "\n  ",
 }
 
-const cacheOkBits = "1101"
+const cacheOkBits = "110111"
 
 type predicted struct {
 	out                     string
@@ -253,7 +257,7 @@ func (h cacheHist) all() []string { return append(append([]string{}, h.prefix...
 // compareCache runs one history on the model and on the implementation.
 func compareCache(drv *DriverPool, h cacheHist, res *Result, prop string, checkC14 bool) {
 	ops := h.all()
-	hs := "0,1,2,3"
+	hs := "0,1,2,3,4,5"
 	if h.hashes != nil {
 		var p []string
 		for _, x := range h.hashes {
@@ -295,7 +299,7 @@ func compareCache(drv *DriverPool, h cacheHist, res *Result, prop string, checkC
 	res.Programs++
 	res.DisagreementsChecked += len(ops)
 	res.mu.Unlock()
-	in := map[string]interface{}{"ops": ops, "hashes": h.hashes, "docs": "cacheDocs (A, B, unparsable, invalid-attribute)"}
+	in := map[string]interface{}{"ops": ops, "hashes": h.hashes, "docs": "cacheDocs (A, B, unparsable, invalid-attribute, same behind two blank lines, A + trailing whitespace)"}
 	if crash != "" || len(obs) != len(ops) {
 		// a crash is an implementation failure: no configuration or history may take the process down (C14/C13)
 		res.Violate(Violation{Sig: "process-crash|" + canonHist(h), Kind: "history", What: "cache history crashed or hung the process: " + crash, Input: in})
@@ -363,6 +367,10 @@ func cacheSpecViolation(prop string, ops []string, i int, o cacheObs, p predicte
 		return "reused-at-or-after-expiry" // C14: never at or after it
 	case strings.HasPrefix(op, "rc") && int64(o.Size) > p.size && strings.HasPrefix(p.out, "err"):
 		return "failed-parse-cached" // C13
+	case strings.HasPrefix(op, "rc") && int64(o.Size) < p.size && o.Parses == p.parses-1:
+		return "different-documents-share-an-entry" // C13
+	case strings.HasPrefix(op, "rc") && int64(o.Size) < p.size:
+		return "different-documents-share-an-entry" // C13
 	case op == "t" && int64(o.Size) > p.size:
 		return "expired-entry-survives-sweep" // C14
 	case (op[0] == 'T' || op[0] == 'I') && (o.TTL != p.ttl || o.Interval != p.interval):
@@ -388,7 +396,7 @@ func canonHist(h cacheHist) string {
 func cacheHistories(tier string, seed int64, withConfigs bool) []cacheHist {
 	var hs []cacheHist
 	half, full := fmt.Sprintf("a%d", 150*int64(1e9)), fmt.Sprintf("a%d", 300*int64(1e9))
-	alpha := []string{"rc0", "rc1", "rc2", "rc3", "ru0", half, full, "s"}
+	alpha := []string{"rc0", "rc1", "rc2", "rc3", "rc4", "rc5", "ru0", half, full, "s"}
 	maxLen := 4
 	if tier == "thorough" {
 		maxLen = 5
@@ -498,7 +506,7 @@ func cfgOps(ttl int64) []string {
 
 func runCacheProp(prop string) runFn {
 	return func(res *Result, tier string, seed int64, replay string) {
-		res.Rule = "histories over {cached render of A / A' (one byte differs) / unparsable / invalid-attribute doc, uncached render, advance TTL/2, advance TTL, stop}: exhaustive to length 4 (quick) or 5 (thorough); fast-sweep family (1 ms interval, tick after every step) exhaustive to length 3; seeded random histories up to length 25 (quick) / 125 (thorough); C14 adds the TTL×interval boundary matrix in both setter orders. Each history runs in a FRESH process (hx cachechild) and on the Lean Model (driver `cache`); per op: outcome vs uncached compilation, parser calls, cache size, cleaner registered, effective config, cleanup goroutines started/exited. Non-trivial = history with at least one cached compilation; distinct by op list"
+		res.Rule = "histories over {cached render of A / A' (one byte differs) / unparsable / invalid-attribute doc / the same behind blank lines / A with trailing whitespace, uncached render, advance TTL/2, advance TTL, stop}: exhaustive to length 4 (quick) or 5 (thorough); fast-sweep family (1 ms interval, tick after every step) exhaustive to length 3; seeded random histories up to length 25 (quick) / 125 (thorough); C14 adds the TTL×interval boundary matrix in both setter orders. Each history runs in a FRESH process (hx cachechild) and on the Lean Model (driver `cache`); per op: outcome vs uncached compilation, parser calls, cache size, cleaner registered, effective config, cleanup goroutines started/exited. Non-trivial = history with at least one cached compilation; distinct by op list"
 		drv, err := startDriverPool(8)
 		if err != nil {
 			res.Disagree(Violation{Sig: "driver-missing", Kind: "history", What: err.Error()})
@@ -530,8 +538,8 @@ func runCacheProp(prop string) runFn {
 			hs = cacheHistories(tier, seed, prop == "C14")
 			// forced hash collisions: the recorded finding C13-F1, and near misses that must not collide
 			if prop == "C13" {
-				hs = append(hs, cacheHist{ops: []string{"rc0", "rc1"}, hashes: []uint64{7, 7, 8, 9}})
-				hs = append(hs, cacheHist{ops: []string{"rc0", "rc1", "rc0"}, hashes: []uint64{7, 8, 9, 10}})
+				hs = append(hs, cacheHist{ops: []string{"rc0", "rc1"}, hashes: []uint64{7, 7, 8, 9, 10, 11}})
+				hs = append(hs, cacheHist{ops: []string{"rc0", "rc1", "rc0"}, hashes: []uint64{7, 8, 9, 10, 11, 12}})
 			}
 		}
 		res.Exhaustive = false
